@@ -129,14 +129,26 @@ def heapEngine (j : Json) : R Json := do
           ("n", natJ q.n), ("writes", Json.arr (q.writes.map writeJson).toArray),
           ("reads", Json.arr (ts.map (fun t => match (valueAtEff q.out e qres t).read with
             | none => Json.null | some w => writeJson w)).toArray)])
-  | "treecopy" =>
+  | "treecopy" | "treecopy_shared" =>
+      -- nodes in walk order; "cols": null = a nil data slice
       let nObj ← nat j "nObj"
       let nodes ← (← arr j "nodes").toList.mapM (fun nd => do
-        let cols ← (← arr nd "cols").toList.mapM parseSV
-        pure ({ obj := ← nat nd "obj", dataArr := ← nat nd "dataArr", cols := cols } : TNode))
-      let cp := treeCopyEff nObj nodes
-      pure (Json.mkObj [("nodes", Json.arr (cp.map (fun nd => Json.mkObj [("obj", natJ nd.obj),
-        ("dataArr", natJ nd.dataArr), ("cols", Json.arr (nd.cols.map svJson).toArray)])).toArray)])
+        let cj ← obj nd "cols"
+        let data ← if cj.isNull then pure none else do
+          pure (some (← (← cj.getArr?).toList.mapM parseSV))
+        pure ({ obj := ← nat nd "obj", dataArr := ← nat nd "dataArr", data := data } : TNode))
+      let nodesJson := fun (ns : List TNode) => Json.arr (ns.map (fun nd => Json.mkObj [("obj", natJ nd.obj),
+        ("dataArr", natJ nd.dataArr), ("cols", match nd.data with
+          | none => Json.null
+          | some cols => Json.arr (cols.map svJson).toArray)])).toArray
+      if op == "treecopy_shared" then
+        -- the code before /repo 63b81da
+        pure (Json.mkObj [("nodes", nodesJson (treeCopyEffShared nObj nodes)), ("allocs", Json.arr #[]),
+          ("writes", Json.arr #[])])
+      else
+        let cp := treeCopyEff nObj (← nat j "nArr") (← nat j "n") nodes
+        pure (Json.mkObj [("nodes", nodesJson cp.nodes), ("allocs", Json.arr (cp.allocs.map natJ).toArray),
+          ("writes", Json.arr (cp.writes.map writeJson).toArray)])
   | _ => throw s!"heap: unknown op {op}"
 
 end Zeno.Drv
